@@ -363,7 +363,8 @@ def output_timing_stats(
     lines = mypy_timing_stats.read_text().splitlines()
 
     for line in lines:
-        module, micro_seconds = line.split()
+        # A module name can contain spaces (ie, when the file name does)
+        module, micro_seconds = line.rsplit(maxsplit=1)
 
         mypy_stats[module] = int(micro_seconds) // 1_000
 
